@@ -216,5 +216,97 @@ pub fn c05(ctx: &Ctx, begin: &mut dyn FnMut(J)) -> Outcome {
         Ok(Err(e)) => out.viol("failed", wr::truncate(&e, 60), J::s(e)),
         Err(p) => out.viol("panicked", wr::panic_site(&p), J::A(p.into_iter().map(J::S).collect())),
     }
+    if split.len() == 1 {
+        overlapping_blocks(&mut out, n, b);
+    }
     out
+}
+
+/// The same tree shape with OVERLAPPING block spans: a bigBed, items_per_slot = 1, whose first
+/// entry covers everything ("long then short") and whose entry at n/2 reaches to the end as
+/// well, so that the furthest end inside a node is not its last child's.
+fn overlapping_blocks(out: &mut Outcome, n: usize, b: u32) {
+    use bigtools::{BedEntry, BigBedRead};
+    let span = 10 * n as u32 + 10;
+    let mut entries: Vec<BedEntry> = (0..n as u32).map(|i| BedEntry { start: 10 * i, end: 10 * i + 5, rest: format!("e{}", i) }).collect();
+    entries[0].end = span;
+    if n > 3 {
+        entries[n / 2].end = span - 3;
+    }
+    let input: BbInput = vec![(Chrom { name: "chrA".into(), size: span }, entries.clone())];
+    let mut opts = WOpts::default_small();
+    opts.items_per_slot = 1;
+    opts.block_size = b;
+    opts.compress = n % 2 == 1;
+    opts.zoom = Zoom::Manual(vec![5]);
+    opts.workers = 0;
+    opts.multipass = (n + b as usize) % 2 == 1;
+    let sink = MemSink::new();
+    let res = wr::write_bb(sink.clone(), &input, &opts, None, None, &[]);
+    if !matches!(res, CallResult::Ok) {
+        out.viol("write_failed", "overlapping_blocks", J::s(res.short()));
+        return;
+    }
+    let bytes = Arc::new(sink.bytes());
+    let run = wr::guard(|| -> Result<(), String> {
+        let h = walk::parse_header(&bytes)?;
+        let main = walk::walk_rtree(&bytes, h.le, h.full_index_off)?;
+        for p in &main.problems {
+            out.viol("index_structure", format!("overlapping_blocks:{}", p.split(' ').take(3).collect::<Vec<_>>().join("_")), J::s(p.clone()));
+        }
+        if main.leaves.len() != n {
+            out.viol("index_leaf_count", "overlapping_blocks", J::obj().set("leaves", main.leaves.len().into()).set("n", n.into()));
+        }
+        let log = Arc::new(Mutex::new(Vec::new()));
+        let mut rd = BigBedRead::open(LogCursor { data: bytes.clone(), pos: 0, log: log.clone() }).map_err(|e| e.to_string())?;
+        let mut pts: Vec<u32> = vec![0, span];
+        for e in &entries {
+            for p in [e.start.saturating_sub(1), e.start, e.start + 1, e.end - 1, e.end, e.end + 1] {
+                if p <= span {
+                    pts.push(p);
+                }
+            }
+        }
+        pts.sort();
+        pts.dedup();
+        let stride = if pts.len() > 100 { pts.len() / 100 + 1 } else { 1 };
+        let mut nq = 0u64;
+        for (ia, &s) in pts.iter().enumerate() {
+            for (ib, &e) in pts.iter().enumerate().skip(ia + 1) {
+                if stride > 1 && (ia + ib) % stride != 0 && ib != ia + 1 && ib + 1 != pts.len() && ia != 0 {
+                    continue;
+                }
+                nq += 1;
+                log.lock().unwrap().clear();
+                let got: Vec<BedEntry> = rd.get_interval("chrA", s, e).map_err(|e| e.to_string())?.collect::<Result<_, _>>().map_err(|e| e.to_string())?;
+                let fetched: Vec<u64> = log.lock().unwrap().iter().filter(|(o, _)| main.leaves.iter().any(|l| l.off == *o)).map(|(o, _)| *o).collect();
+                let must: Vec<&BedEntry> = entries.iter().filter(|x| crate::model::overlaps(x.start, x.end, s, e)).collect();
+                if must.iter().any(|m| !got.contains(m)) {
+                    out.viol("search_differs_from_linear_scan", "overlapping_blocks:entry_missing", J::obj().set("q", J::A(vec![s.into(), e.into()])).set("n_got", got.len().into()).set("n_must", must.len().into()));
+                }
+                if got.iter().any(|g| g.end < s || g.start > e) || got.windows(2).any(|w| w[0].start > w[1].start) {
+                    out.viol("search_differs_from_linear_scan", "overlapping_blocks:spurious_or_unordered", J::obj().set("q", J::A(vec![s.into(), e.into()])));
+                }
+                let want_blocks: Vec<u64> = main.leaves.iter().filter(|l| (0u32, s) <= (l.ec, l.eb) && (0u32, e) >= (l.sc, l.sb)).map(|l| l.off).collect();
+                if fetched != want_blocks {
+                    out.viol(
+                        "blocks_fetched_differ_from_linear_scan",
+                        if fetched.len() < want_blocks.len() { "overlapping_blocks:fewer" } else if fetched.len() > want_blocks.len() { "overlapping_blocks:more" } else { "overlapping_blocks:order" },
+                        J::obj().set("q", J::A(vec![s.into(), e.into()])).set("fetched", fetched.len().into()).set("want", want_blocks.len().into()),
+                    );
+                }
+                let pruned = walk::pruned_search(&bytes, h.le, h.full_index_off, 0, s, e)?;
+                if pruned.iter().map(|l| l.off).collect::<Vec<_>>() != want_blocks {
+                    out.viol("written_tree_prunes_a_touching_leaf", "overlapping_blocks", J::obj().set("q", J::A(vec![s.into(), e.into()])));
+                }
+            }
+        }
+        out.count("queries_overlapping_blocks", nq);
+        Ok(())
+    });
+    match run {
+        Ok(Ok(())) => {}
+        Ok(Err(e)) => out.viol("failed", format!("overlapping_blocks:{}", wr::truncate(&e, 40)), J::s(e)),
+        Err(p) => out.viol("panicked", format!("overlapping_blocks:{}", wr::panic_site(&p)), J::A(p.into_iter().map(J::S).collect())),
+    }
 }
